@@ -13,6 +13,10 @@
 //! integer limits inside the non-overflowing range, -0.0 against 0.0 in the orderings); every call is evaluated twice.
 //! The operators have no `Result<Array<T>, ArrayError>` receiver impls, so there is no chained form to run.
 //!
+//! Integer VALUE lines (`ival`, `ishift`; see the section below): for the integer element types the Lean model contains the native
+//! fixed-width operators themselves (ArrModel/C20Int.lean) and answers with values; the crate's result is compared with the
+//! MODEL's values, a native checked_* / wrapping_* evaluation is the second judge, `ival_report` carries the counters.
+//!
 //! Part 2: the compact operand spelling `h<shape>~lo~m~o[~pos=tok;…]` for huge arrays (same integer formula in the Lean driver),
 //! `seq a / b / c` lines (several cases on one thread: hidden state, colliding shapes, the same arguments through every element
 //! type) and an A-B-A re-run of the previous case after every small case.
@@ -315,6 +319,205 @@ fn ex_cmp<T: Elem>(rel: &str, a_s: &str, b_s: &str, same: bool, expected: &str) 
     Some(compare_default(observed, expected))
 }
 
+// ------------------------------------------------------------------ integer VALUE lines (`ival`, `ishift`)
+//
+// The Lean model (ArrModel/C20Int.lean) contains the native fixed-width operators themselves: wrap-around / panic on
+// overflow depending on the build, panic on a zero divisor and on MIN / -1 in every build, truncating division, masked /
+// refused shift amounts.  For these lines the driver answers with VALUES, `<harness build> ;; <plain release build>`.
+// Three judgements per line:
+//   1. the crate's result (this build: harness/Cargo.toml `[profile.release] overflow-checks = true`) against the model's
+//      first answer — the tie proper;
+//   2. a native `checked_*` evaluation against the model's first answer (second judge, counted in `ival_report`);
+//   3. a native `wrapping_*` evaluation (division still `checked_*`: MIN / -1 and x / 0 panic in every build) against the
+//      model's second answer — the only judge of the wrap-around model, because the crate cannot be built twice here.
+
+trait IntNative: Elem + PartialEq {
+    /// `checked` = overflow-checks on (None = panic); otherwise the plain release semantics
+    fn nat_bin(op: &str, x: Self, y: Self, checked: bool) -> Option<Self>;
+    fn nat_neg(x: Self, checked: bool) -> Option<Self>;
+    fn nat_not(x: Self) -> Self;
+}
+macro_rules! int_native { ($($t:ty),*) => { $(impl IntNative for $t {
+    fn nat_bin(op: &str, x: Self, y: Self, checked: bool) -> Option<Self> {
+        match op {
+            "add" => if checked { x.checked_add(y) } else { Some(x.wrapping_add(y)) },
+            "sub" => if checked { x.checked_sub(y) } else { Some(x.wrapping_sub(y)) },
+            "mul" => if checked { x.checked_mul(y) } else { Some(x.wrapping_mul(y)) },
+            "div" => x.checked_div(y),
+            "rem" => x.checked_rem(y),
+            "and" => Some(x & y), "or" => Some(x | y), "xor" => Some(x ^ y),
+            "shl" => if checked { u32::try_from(y).ok().and_then(|k| x.checked_shl(k)) } else { Some(x.wrapping_shl(y as u32)) },
+            "shr" => if checked { u32::try_from(y).ok().and_then(|k| x.checked_shr(k)) } else { Some(x.wrapping_shr(y as u32)) },
+            _ => panic!("harness: op"),
+        }
+    }
+    fn nat_neg(x: Self, checked: bool) -> Option<Self> { if checked { x.checked_neg() } else { Some(x.wrapping_neg()) } }
+    fn nat_not(x: Self) -> Self { !x }
+})* } }
+int_native!(i8, i16, i32, i64, isize, u8, u16, u32, u64, usize);
+impl IntNative for bool {
+    fn nat_bin(op: &str, x: bool, y: bool, _checked: bool) -> Option<bool> {
+        match op { "and" => Some(x & y), "or" => Some(x | y), "xor" => Some(x ^ y),
+                   "shl" => Some(((x as usize) << (y as usize)) == 1), "shr" => Some(((x as usize) >> (y as usize)) == 1), _ => panic!("harness: op") }
+    }
+    fn nat_neg(_x: bool, _checked: bool) -> Option<bool> { None }
+    fn nat_not(x: bool) -> bool { !x }
+}
+
+static IVAL_CASES: std::sync::atomic::AtomicUsize = std::sync::atomic::AtomicUsize::new(0);
+static IVAL_POSITIONS: std::sync::atomic::AtomicUsize = std::sync::atomic::AtomicUsize::new(0);
+static IVAL_CHECKED_AGREE: std::sync::atomic::AtomicUsize = std::sync::atomic::AtomicUsize::new(0);
+static IVAL_WRAP_AGREE: std::sync::atomic::AtomicUsize = std::sync::atomic::AtomicUsize::new(0);
+static IVAL_PANICS: std::sync::atomic::AtomicUsize = std::sync::atomic::AtomicUsize::new(0);
+static IVAL_DISAGREE: std::sync::atomic::AtomicUsize = std::sync::atomic::AtomicUsize::new(0);
+
+/// native answer of a whole operator call: `x op y` at every position, one `None` makes the call panic
+fn native_answer<T: IntNative>(shape: &[usize], n: usize, f: impl Fn(usize) -> Option<T>) -> String {
+    let mut vals = Vec::with_capacity(n);
+    for i in 0..n { match f(i) { Some(v) => vals.push(v), None => return "panic".into() } }
+    format!("ok {}", show_t(shape, &vals))
+}
+
+/// the three judgements of an `ival` / `ishift` line
+fn judge_ival(observed: String, expected: &str, nat_checked: String, nat_wrap: String, positions: usize) -> Option<Verdict> {
+    use std::sync::atomic::Ordering::Relaxed;
+    let (m_chk, m_wrap) = expected.split_once(" ;; ")?;
+    IVAL_CASES.fetch_add(1, Relaxed);
+    IVAL_POSITIONS.fetch_add(positions, Relaxed);
+    if m_chk == "panic" { IVAL_PANICS.fetch_add(1, Relaxed); }
+    if nat_checked == m_chk { IVAL_CHECKED_AGREE.fetch_add(1, Relaxed); }
+    if nat_wrap == m_wrap { IVAL_WRAP_AGREE.fetch_add(1, Relaxed); }
+    if nat_checked != m_chk {
+        IVAL_DISAGREE.fetch_add(1, Relaxed);
+        return Some(Verdict::Mismatch { detail: format!("MODEL-VS-NATIVE: the model (overflow-checks build) says `{}` but native checked_* evaluation gives `{}`", truncate(m_chk, 300), truncate(&nat_checked, 300)), observed });
+    }
+    if nat_wrap != m_wrap {
+        IVAL_DISAGREE.fetch_add(1, Relaxed);
+        return Some(Verdict::Mismatch { detail: format!("MODEL-VS-NATIVE: the model (plain release build) says `{}` but native wrapping_* evaluation gives `{}`", truncate(m_wrap, 300), truncate(&nat_wrap, 300)), observed });
+    }
+    if observed == m_chk { Some(Verdict::Match(observed)) }
+    else { Some(Verdict::Mismatch { detail: format!("model (native operators in Lean, overflow-checks build) says `{}`", truncate(m_chk, 400)), observed }) }
+}
+
+/// `+ - * / %` on i8 i16 i32 i64 (the `NumericOps` integer types)
+fn ex_ival_arith<T: IntNative + NumericOps>(form: &str, op: &str, a_s: &str, b_s: &str, expected: &str) -> Option<Verdict> {
+    let a = build::<T>(a_s)?;
+    let (sa, av) = (a.get_shape().unwrap(), a.get_elements().unwrap());
+    macro_rules! arr_op { ($x:expr, $y:expr) => { match op { "add" => $x + $y, "sub" => $x - $y, "mul" => $x * $y, "div" => $x / $y, "rem" => $x % $y, _ => panic!("harness: op") } } }
+    macro_rules! arr_assign { ($x:expr, $y:expr) => { match op { "add" => $x += $y, "sub" => $x -= $y, "mul" => $x *= $y, "div" => $x /= $y, "rem" => $x %= $y, _ => panic!("harness: op") } } }
+    if !ARITH_OP.contains(&op) { return None; }
+    match form {
+        "arr_arr" | "assign_arr" | "arr_self" | "assign_self" => {
+            let b = if form.ends_with("_self") { a.clone() } else { build::<T>(b_s)? };
+            let (sb, bv) = (b.get_shape().unwrap(), b.get_elements().unwrap());
+            let observed = if form.starts_with("arr_") { twice(|| { let r: Array<T> = arr_op!(a.clone(), b.clone()); show_a(&r) }) }
+                           else { twice(|| { let mut x = a.clone(); arr_assign!(x, b.clone()); show_a(&x) }) };
+            let nat = |checked: bool| if sa != sb { "panic".to_string() } else { native_answer(&sa, av.len(), |i| T::nat_bin(op, av[i], bv[i], checked)) };
+            judge_ival(observed, expected, nat(true), nat(false), av.len())
+        }
+        "arr_scalar" | "assign_scalar" => {
+            let s = T::parse_tok(b_s)?;
+            let observed = if form == "arr_scalar" { twice(|| { let r: Result<Array<T>, ArrayError> = arr_op!(a.clone(), s); show_r(&r) }) }
+                           else { twice(|| { let mut x = a.clone(); arr_assign!(x, s); show_a(&x) }) };
+            let nat = |checked: bool| native_answer(&sa, av.len(), |i| T::nat_bin(op, av[i], s, checked));
+            judge_ival(observed, expected, nat(true), nat(false), av.len())
+        }
+        _ => None,
+    }
+}
+
+fn ex_ival_neg<T: IntNative + SignedNumericOps>(a_s: &str, expected: &str) -> Option<Verdict> {
+    let a = build::<T>(a_s)?;
+    let (sa, av) = (a.get_shape().unwrap(), a.get_elements().unwrap());
+    let observed = twice(|| show_a(&(-a.clone())));
+    let nat = |checked: bool| native_answer(&sa, av.len(), |i| T::nat_neg(av[i], checked));
+    judge_ival(observed, expected, nat(true), nat(false), av.len())
+}
+
+/// `& | ^` on the ten integer types and bool
+fn ex_ival_bit<T>(form: &str, op: &str, a_s: &str, b_s: &str, expected: &str) -> Option<Verdict>
+where T: IntNative + Numeric + BitAnd<Output = T> + BitOr<Output = T> + BitXor<Output = T> {
+    let a = build::<T>(a_s)?;
+    let (sa, av) = (a.get_shape().unwrap(), a.get_elements().unwrap());
+    macro_rules! arr_op { ($x:expr, $y:expr) => { match op { "and" => $x & $y, "or" => $x | $y, "xor" => $x ^ $y, _ => panic!("harness: op") } } }
+    macro_rules! arr_assign { ($x:expr, $y:expr) => { match op { "and" => $x &= $y, "or" => $x |= $y, "xor" => $x ^= $y, _ => panic!("harness: op") } } }
+    if !BIT_OP.contains(&op) { return None; }
+    match form {
+        "bit_arr" | "bit_assign_arr" | "bit_self" | "bit_assign_self" => {
+            let b = if form.ends_with("_self") { a.clone() } else { build::<T>(b_s)? };
+            let (sb, bv) = (b.get_shape().unwrap(), b.get_elements().unwrap());
+            let observed = if form == "bit_arr" || form == "bit_self" { twice(|| { let r: Array<T> = arr_op!(a.clone(), b.clone()); show_a(&r) }) }
+                           else { twice(|| { let mut x = a.clone(); arr_assign!(x, b.clone()); show_a(&x) }) };
+            let nat = |checked: bool| if sa != sb { "panic".to_string() } else { native_answer(&sa, av.len(), |i| T::nat_bin(op, av[i], bv[i], checked)) };
+            judge_ival(observed, expected, nat(true), nat(false), av.len())
+        }
+        "bit_scalar" | "bit_assign_scalar" => {
+            let s = T::parse_tok(b_s)?;
+            let observed = if form == "bit_scalar" { twice(|| { let r: Array<T> = arr_op!(a.clone(), s); show_a(&r) }) }
+                           else { twice(|| { let mut x = a.clone(); arr_assign!(x, s); show_a(&x) }) };
+            let nat = |checked: bool| native_answer(&sa, av.len(), |i| T::nat_bin(op, av[i], s, checked));
+            judge_ival(observed, expected, nat(true), nat(false), av.len())
+        }
+        _ => None,
+    }
+}
+
+fn ex_ival_not(a_s: &str, expected: &str) -> Option<Verdict> {
+    let a = build::<bool>(a_s)?;
+    let (sa, av) = (a.get_shape().unwrap(), a.get_elements().unwrap());
+    let observed = twice(|| show_a(&(!a.clone())));
+    let nat = |_c: bool| native_answer(&sa, av.len(), |i| Some(bool::nat_not(av[i])));
+    judge_ival(observed, expected, nat(true), nat(false), av.len())
+}
+
+/// the scalar shifts, observed through the crate's `Numeric::left_shift` / `right_shift` (`self << other`, `self >> other`)
+fn ex_ishift<T: IntNative + Numeric>(op: &str, x_s: &str, k_s: &str, expected: &str) -> Option<Verdict> {
+    let (x, k) = (T::parse_tok(x_s)?, T::parse_tok(k_s)?);
+    let observed = twice(|| format!("ok {}", match op { "shl" => x.left_shift(&k), "shr" => x.right_shift(&k), _ => panic!("harness: op") }.tok()));
+    let nat = |checked: bool| match T::nat_bin(op, x, k, checked) { Some(v) => format!("ok {}", v.tok()), None => "panic".into() };
+    judge_ival(observed, expected, nat(true), nat(false), 1)
+}
+
+fn exec_ival(args: &[&str], expected: &str) -> Option<Verdict> {
+    let (form, ty) = (*args.first()?, *args.get(1)?);
+    match form {
+        "neg" => { let a = args.get(2)?; match ty { "i8" => ex_ival_neg::<i8>(a, expected), "i16" => ex_ival_neg::<i16>(a, expected), "i32" => ex_ival_neg::<i32>(a, expected), "i64" => ex_ival_neg::<i64>(a, expected), _ => None } }
+        "not" => if ty == "bool" { ex_ival_not(args.get(2)?, expected) } else { None },
+        "arr_arr" | "assign_arr" | "arr_scalar" | "assign_scalar" | "arr_self" | "assign_self" => {
+            let (o, a, b) = (*args.get(2)?, *args.get(3)?, if form.ends_with("_self") { "" } else { *args.get(4)? });
+            match ty { "i8" => ex_ival_arith::<i8>(form, o, a, b, expected), "i16" => ex_ival_arith::<i16>(form, o, a, b, expected),
+                       "i32" => ex_ival_arith::<i32>(form, o, a, b, expected), "i64" => ex_ival_arith::<i64>(form, o, a, b, expected), _ => None }
+        }
+        "bit_arr" | "bit_assign_arr" | "bit_scalar" | "bit_assign_scalar" | "bit_self" | "bit_assign_self" => {
+            let (o, a, b) = (*args.get(2)?, *args.get(3)?, if form.ends_with("_self") { "" } else { *args.get(4)? });
+            match ty {
+                "bool" => ex_ival_bit::<bool>(form, o, a, b, expected),
+                "i8" => ex_ival_bit::<i8>(form, o, a, b, expected), "i16" => ex_ival_bit::<i16>(form, o, a, b, expected),
+                "i32" => ex_ival_bit::<i32>(form, o, a, b, expected), "i64" => ex_ival_bit::<i64>(form, o, a, b, expected),
+                "isize" => ex_ival_bit::<isize>(form, o, a, b, expected),
+                "u8" => ex_ival_bit::<u8>(form, o, a, b, expected), "u16" => ex_ival_bit::<u16>(form, o, a, b, expected),
+                "u32" => ex_ival_bit::<u32>(form, o, a, b, expected), "u64" => ex_ival_bit::<u64>(form, o, a, b, expected),
+                "usize" => ex_ival_bit::<usize>(form, o, a, b, expected),
+                _ => None,
+            }
+        }
+        _ => None,
+    }
+}
+
+fn exec_ishift(args: &[&str], expected: &str) -> Option<Verdict> {
+    if args.len() != 4 { return None; }
+    let (ty, o, x, k) = (args[0], args[1], args[2], args[3]);
+    match ty {
+        "bool" => ex_ishift::<bool>(o, x, k, expected),
+        "i8" => ex_ishift::<i8>(o, x, k, expected), "i16" => ex_ishift::<i16>(o, x, k, expected), "i32" => ex_ishift::<i32>(o, x, k, expected),
+        "i64" => ex_ishift::<i64>(o, x, k, expected), "isize" => ex_ishift::<isize>(o, x, k, expected),
+        "u8" => ex_ishift::<u8>(o, x, k, expected), "u16" => ex_ishift::<u16>(o, x, k, expected), "u32" => ex_ishift::<u32>(o, x, k, expected),
+        "u64" => ex_ishift::<u64>(o, x, k, expected), "usize" => ex_ishift::<usize>(o, x, k, expected),
+        _ => None,
+    }
+}
+
 thread_local! {
     /// the previous case of this worker thread: (op, args, model answer, what the crate answered)
     static PREV: std::cell::RefCell<Option<(String, Vec<String>, String, String)>> = const { std::cell::RefCell::new(None) };
@@ -349,6 +552,12 @@ fn exec(op: &str, args: &[&str], expected: &str) -> Option<Verdict> {
         let text = format!("ok report: {} A-B-A re-runs and {} seq members executed so far", ABA_RERUNS.load(std::sync::atomic::Ordering::Relaxed), SEQ_MEMBERS.load(std::sync::atomic::Ordering::Relaxed));
         return Some(Verdict::Match(text));
     }
+    if op == "ival_report" {
+        use std::sync::atomic::Ordering::Relaxed;
+        let text = format!("ok report: {} ival/ishift cases ({} positions, {} panic in this build): model = native checked_* on {}, model(plain release) = native wrapping_* on {}, disagreements {}",
+            IVAL_CASES.load(Relaxed), IVAL_POSITIONS.load(Relaxed), IVAL_PANICS.load(Relaxed), IVAL_CHECKED_AGREE.load(Relaxed), IVAL_WRAP_AGREE.load(Relaxed), IVAL_DISAGREE.load(Relaxed));
+        return Some(if IVAL_DISAGREE.load(Relaxed) == 0 { Verdict::Match(text) } else { Verdict::Mismatch { observed: text, detail: "the Lean integer model and the native evaluation disagree on some ival line (see that line)".into() } });
+    }
     let mut v = exec_single(op, args, expected)?;
     // A-B-A: after this case (B) the previous case (A) is executed again and must answer what it answered before B
     let prev = PREV.with(|p| p.borrow_mut().take());
@@ -369,6 +578,8 @@ fn exec(op: &str, args: &[&str], expected: &str) -> Option<Verdict> {
 
 fn exec_single(op: &str, args: &[&str], expected: &str) -> Option<Verdict> {
     match op {
+        "ival" => exec_ival(args, expected),
+        "ishift" => exec_ishift(args, expected),
         "arr_arr" | "arr_scalar" | "assign_arr" | "assign_scalar" | "assign_vs_plain" | "arr_self" | "assign_self" => {
             let (ty, o, a, b) = (args[0], args[1], args[2], if op.ends_with("_self") { "" } else { args[3] });
             match ty {
@@ -988,6 +1199,268 @@ fn robustness2(thorough: bool, seed: u64, out: &mut dyn FnMut(String)) {
     out("state_report".into());
 }
 
+// ------------------------------------------------------------------ integer VALUE stream (`ival`, `ishift`)
+
+const IARITH_TY: [&str; 4] = ["i8", "i16", "i32", "i64"];
+const INT_TY: [&str; 10] = ["i8", "i16", "i32", "i64", "isize", "u8", "u16", "u32", "u64", "usize"];
+fn bits_of(ty: &str) -> i128 { match ty { "bool" => 1, "i8" | "u8" => 8, "i16" | "u16" => 16, "i32" | "u32" => 32, _ => 64 } }
+
+/// operands for an arithmetic `ival` line: non-overflowing everywhere, then (two lines in three) ONE position replaced by an
+/// unfiltered pair — it may overflow, have a zero divisor, or be MIN / -1 (the model must then say `panic` for this build)
+fn ival_pair_vals(rng: &mut Rng, ty: &str, op: &str, n: usize, m: usize) -> (Vec<String>, Vec<String>) {
+    let (mut xs, mut ys) = pair_vals(rng, ty, op, n, m);
+    let (lo, hi) = int_range(ty);
+    if n > 0 && n == m && rng.below(3) > 0 {
+        let k = rng.below(n);
+        let (x, y) = match rng.below(4) {
+            0 => (int_val(rng, lo, hi), int_val(rng, lo, hi)),
+            1 => (if rng.below(2) == 0 { lo } else { hi }, *rng.pick(&[-1i128, 1, 0, 2, lo, hi])),
+            2 => (*rng.pick(&[lo, hi, lo + 1, hi - 1, lo / 2, hi / 2 + 1]), *rng.pick(&[lo, hi, -1, 0, 1, 2, -2, lo / 2, hi / 2 + 1])),
+            _ => (int_val(rng, lo, hi), *rng.pick(&[0i128, -1, 1])),
+        };
+        xs[k] = x.to_string(); ys[k] = y.to_string();
+    }
+    (xs, ys)
+}
+
+/// every integer-valued form on one pair of shapes
+fn ival_forms(rng: &mut Rng, sa: &[usize], sb: &[usize], tys: &[&str], bit_tys: &[&str], out: &mut dyn FnMut(String)) { ival_forms_l(rng, sa, sb, tys, bit_tys, None, out) }
+/// `light = Some(k)`: only two arithmetic operators and one bit operator, rotating with `k` (large operands)
+fn ival_forms_l(rng: &mut Rng, sa: &[usize], sb: &[usize], tys: &[&str], bit_tys: &[&str], light: Option<usize>, out: &mut dyn FnMut(String)) {
+    let (n, m) = (prod(sa), prod(sb));
+    for ty in tys {
+        let (lo, hi) = int_range(ty);
+        for (j, op) in ARITH_OP.iter().enumerate() {
+            if let Some(k) = light { if j != k % 5 && j != (k + 2) % 5 { continue; } }
+            let (xs, ys) = ival_pair_vals(rng, ty, op, n, m);
+            let (a, b) = (arr(sa, &xs), arr(sb, &ys));
+            out(format!("ival arr_arr {ty} {op} {a} {b}"));
+            out(format!("ival assign_arr {ty} {op} {a} {b}"));
+            if sa == sb {
+                // scalar forms: the scalar is one of the right operands (so the line inherits the overflow / zero-divisor mix)
+                let sc = if ys.is_empty() { int_val(rng, lo, hi).to_string() } else { ys[rng.below(ys.len())].clone() };
+                out(format!("ival arr_scalar {ty} {op} {a} {sc}"));
+                out(format!("ival assign_scalar {ty} {op} {a} {sc}"));
+                if rng.below(4) == 0 { out(format!("ival arr_self {ty} {op} {a}")); out(format!("ival assign_self {ty} {op} {a}")); }
+            }
+        }
+        if sa == sb {
+            let ns: Vec<String> = (0..n).map(|_| int_val(rng, lo, hi).to_string()).collect();
+            out(format!("ival neg {ty} {}", arr(sa, &ns)));
+            out(format!("ival neg {ty} {}", arr(sa, &neg_vals(rng, ty, n))));
+        }
+    }
+    for ty in bit_tys {
+        for (j, op) in BIT_OP.iter().enumerate() {
+            if let Some(k) = light { if j != k % 3 { continue; } }
+            let (xs, ys) = (bit_vals(rng, ty, n), bit_vals(rng, ty, m));
+            let (a, b) = (arr(sa, &xs), arr(sb, &ys));
+            out(format!("ival bit_arr {ty} {op} {a} {b}"));
+            out(format!("ival bit_assign_arr {ty} {op} {a} {b}"));
+            if sa == sb {
+                let sc = bit_vals(rng, ty, 1).pop().unwrap();
+                out(format!("ival bit_scalar {ty} {op} {a} {sc}"));
+                out(format!("ival bit_assign_scalar {ty} {op} {a} {sc}"));
+                if rng.below(4) == 0 { out(format!("ival bit_self {ty} {op} {a}")); out(format!("ival bit_assign_self {ty} {op} {a}")); }
+            }
+        }
+        if *ty == "bool" && sa == sb { out(format!("ival not bool {}", arr(sa, &bit_vals(rng, "bool", n)))); }
+    }
+}
+
+fn ival_stream(thorough: bool, seed: u64, out: &mut dyn FnMut(String)) {
+    let mut fx = Rng::new(0x1A7);
+    // corpus: the observations made on the real crate when the model was written
+    for l in [
+        "ival arr_arr i8 add 2:127,1 2:1,1", "ival assign_arr i8 add 2:127,1 2:1,1", "ival arr_scalar i8 add 2:127,1 1", "ival assign_scalar i8 add 2:127,1 1",
+        "ival arr_arr i8 sub 2:-128,1 2:1,1", "ival arr_arr i8 mul 2:64,1 2:2,1", "ival arr_arr i8 div 2:64,1 2:0,1", "ival arr_arr i8 div 2:-128,1 2:-1,1",
+        "ival arr_arr i8 rem 2:64,1 2:0,1", "ival arr_arr i8 rem 2:-128,1 2:-1,1", "ival neg i8 2:-128,1",
+        "ival arr_arr i8 div 4:-7,7,-7,7 4:2,-2,-2,2", "ival arr_arr i8 rem 4:-7,7,-7,7 4:2,-2,-2,2",
+        "ival bit_arr u8 and 2:200,15 2:100,9", "ival not bool 2:1,0",
+        "ishift i8 shl 1 8", "ishift i8 shl 1 -1", "ishift i8 shl 1 7", "ishift i8 shl 127 3", "ishift i8 shr 1 8", "ishift i8 shr -128 2",
+        "ishift u8 shr 200 2", "ishift u8 shl 200 9", "ishift u64 shl 1 64",
+    ] { out(l.to_string()); }
+
+    // (I1) exhaustive small scope: every shape of rank <= 4, len <= 3 (+ zero-length); all types up to rank 2, rotating above
+    let mut base = shapes(1, 4, 1, 3);
+    base.extend(zero_shapes());
+    if thorough { base.extend(shapes(1, 3, 4, 4)); }
+    let bit_all: Vec<&str> = BIT_TY.to_vec();
+    for (k, s) in base.iter().enumerate() {
+        if s.len() <= 2 || thorough { ival_forms(&mut fx, s, s, &IARITH_TY, &bit_all, out); }
+        else { ival_forms(&mut fx, s, s, &[IARITH_TY[k % 4], IARITH_TY[(k + 1) % 4]], &[BIT_TY[k % 11], BIT_TY[(k + 4) % 11], "bool"], out); }
+    }
+    // differently shaped operands: refused whatever the values (same element count and not)
+    for (k, (sa, sb)) in [(vec![2, 3], vec![3, 2]), (vec![6], vec![2, 3]), (vec![2], vec![3]), (vec![1, 2], vec![2]), (vec![0], vec![0, 0]), (vec![2, 0], vec![0, 2]), (vec![2, 2, 2], vec![2, 4]), (vec![3], vec![1])].iter().enumerate() {
+        ival_forms(&mut fx, sa, sb, &[IARITH_TY[k % 4]], &[BIT_TY[k % 11]], out);
+        ival_forms(&mut fx, sb, sa, &[IARITH_TY[(k + 1) % 4]], &[BIT_TY[(k + 5) % 11]], out);
+    }
+
+    // (I2) the limits of every type: ALL pairs over 19 values (overflowing ones included), one pair per line so that every pair is
+    // judged in the overflow-checks build too; the form rotates.  Then the whole grid as one array (wrap-around answer of the model
+    // against native wrapping_*; in this build it panics as soon as one pair overflows).
+    for ty in IARITH_TY {
+        let (lo, hi) = int_range(ty);
+        let vals = [lo, lo + 1, lo + 2, lo / 2, lo / 2 - 1, lo / 2 + 1, -3, -2, -1, 0, 1, 2, 3, hi / 2, hi / 2 + 1, hi / 2 - 1, hi - 2, hi - 1, hi];
+        for op in ARITH_OP {
+            let mut k = 0usize;
+            for &x in &vals { for &y in &vals {
+                k += 1;
+                let form = ["arr_arr", "assign_arr", "arr_scalar", "assign_scalar"][k % 4];
+                if form.ends_with("scalar") { out(format!("ival {form} {ty} {op} 1:{x} {y}")); } else { out(format!("ival {form} {ty} {op} 1:{x} 1:{y}")); }
+            } }
+            let m = vals.len();
+            let xs: Vec<String> = (0..m * m).map(|i| vals[i / m].to_string()).collect();
+            let ys: Vec<String> = (0..m * m).map(|i| vals[i % m].to_string()).collect();
+            out(format!("ival arr_arr {ty} {op} {} {}", arr(&[m, m], &xs), arr(&[m, m], &ys)));
+            out(format!("ival assign_arr {ty} {op} {} {}", arr(&[m * m], &xs), arr(&[m * m], &ys)));
+            // per right operand: exactly the left operands that stay in range with it (a value in this build), in scalar form
+            for &y in &vals {
+                let ok: Vec<String> = vals.iter().filter(|&&x| int_ok(op, x, y, lo, hi)).map(|x| x.to_string()).collect();
+                out(format!("ival arr_scalar {ty} {op} {} {y}", arr(&[ok.len()], &ok)));
+                let ys: Vec<String> = ok.iter().map(|_| y.to_string()).collect();
+                out(format!("ival assign_arr {ty} {op} {} {}", arr(&[ok.len()], &ok), arr(&[ok.len()], &ys)));
+            }
+        }
+        let ns: Vec<String> = vals.iter().map(|v| v.to_string()).collect();
+        for x in &ns { out(format!("ival neg {ty} 1:{x}")); }
+        out(format!("ival neg {ty} {}", arr(&[ns.len()], &ns)));
+        out(format!("ival neg {ty} {}", arr(&[ns.len() - 1], &ns[1..])));
+    }
+    // (I2b) i8 EXHAUSTIVELY: all 65 536 operand pairs of every operator.  Per right operand y: the 256 left operands as one array
+    // (wrap-around model against native; panic in this build unless nothing overflows), the left operands that stay in range as
+    // one array (values in this build), and the first overflowing left operand on either side alone.
+    {
+        let (lo, hi) = int_range("i8");
+        let ys: Vec<i128> = if thorough { (lo..=hi).collect() } else { (lo..=hi).filter(|y| y.rem_euclid(4) == ((seed % 4) as i128) || y.abs() <= 3 || *y <= lo + 2 || *y >= hi - 2).collect() };
+        let all: Vec<String> = (lo..=hi).map(|x| x.to_string()).collect();
+        for op in ARITH_OP {
+            for &y in &ys {
+                out(format!("ival arr_scalar i8 {op} {} {y}", arr(&[256], &all)));
+                let ok: Vec<i128> = (lo..=hi).filter(|&x| int_ok(op, x, y, lo, hi)).collect();
+                let oks: Vec<String> = ok.iter().map(|x| x.to_string()).collect();
+                let yv: Vec<String> = ok.iter().map(|_| y.to_string()).collect();
+                out(format!("ival arr_arr i8 {op} {} {}", arr(&[ok.len()], &oks), arr(&[ok.len()], &yv)));
+                out(format!("ival assign_scalar i8 {op} {} {y}", arr(&[ok.len()], &oks)));
+                if let (Some(&first), Some(&last)) = (ok.first(), ok.last()) {
+                    if first > lo { out(format!("ival arr_arr i8 {op} 1:{} 1:{y}", first - 1)); }
+                    if last < hi { out(format!("ival assign_arr i8 {op} 1:{} 1:{y}", last + 1)); }
+                }
+            }
+        }
+        out(format!("ival neg i8 {}", arr(&[256], &all)));
+        out(format!("ival neg i8 {}", arr(&[255], &all[1..])));
+        // & | ^ on i8, u8: every pair (16 x 16 blocks of 256)
+        for ty in ["i8", "u8"] {
+            let (lo, hi) = int_range(ty);
+            let all: Vec<String> = (lo..=hi).map(|x| x.to_string()).collect();
+            for op in BIT_OP {
+                for y in (lo..=hi).filter(|y| thorough || y.rem_euclid(8) == ((seed % 8) as i128) || *y <= lo + 1 || *y >= hi - 1 || *y == 0 || *y == -1) {
+                    out(format!("ival {} {ty} {op} {} {y}", if y % 2 == 0 { "bit_scalar" } else { "bit_assign_scalar" }, arr(&[16, 16], &all)));
+                }
+            }
+        }
+        for op in BIT_OP { for x in 0..2 { for y in 0..2 { out(format!("ival bit_arr bool {op} 1:{x} 1:{y}")); out(format!("ival bit_assign_scalar bool {op} 1:{x} {y}")); } } }
+        out("ival not bool 1:0".into()); out("ival not bool 1:1".into());
+    }
+    // bit operators at the limits of every integer type (full grid as one array; they never panic)
+    for ty in INT_TY {
+        let (lo, hi) = int_range(ty);
+        let vals: Vec<i128> = [lo, lo + 1, -1, 0, 1, hi / 2, hi / 2 + 1, hi - 1, hi, 0x55, 0xAA, -86].iter().copied().filter(|v| lo <= *v && *v <= hi).collect();
+        let m = vals.len();
+        let xs: Vec<String> = (0..m * m).map(|i| vals[i / m].to_string()).collect();
+        let ys: Vec<String> = (0..m * m).map(|i| vals[i % m].to_string()).collect();
+        for op in BIT_OP {
+            out(format!("ival bit_arr {ty} {op} {} {}", arr(&[m, m], &xs), arr(&[m, m], &ys)));
+            out(format!("ival bit_assign_arr {ty} {op} {} {}", arr(&[m * m], &xs), arr(&[m * m], &ys)));
+            out(format!("ival bit_self {ty} {op} {}", arr(&[m * m], &xs)));
+        }
+    }
+
+    // (I3) shifts (scalar; `Numeric::left_shift` / `right_shift`): every amount -3 ..= w+2 and the extremes of the type, on the limits
+    for ty in INT_TY {
+        let (lo, hi) = int_range(ty);
+        let w = bits_of(ty);
+        let xs: Vec<i128> = [lo, lo + 1, -2, -1, 0, 1, 2, 3, 5, hi / 2, hi / 2 + 1, hi - 1, hi, 0x55, -86].iter().copied().filter(|v| lo <= *v && *v <= hi).collect();
+        let mut ks: Vec<i128> = (-3..=w + 2).collect();
+        ks.extend([lo, lo + 1, hi, hi - 1, 2 * w, 2 * w - 1, 255, 256, 65535, 65536, 1 << 32, (1i128 << 32) + 1, -w, -w + 1]);
+        ks.retain(|k| lo <= *k && *k <= hi); ks.sort(); ks.dedup();
+        for (i, &x) in xs.iter().enumerate() { for &k in &ks {
+            if !thorough && w == 64 && i % 3 != 0 && k > 3 && k < w - 2 { continue; }
+            out(format!("ishift {ty} shl {x} {k}")); out(format!("ishift {ty} shr {x} {k}"));
+        } }
+    }
+    for x in 0..2 { for k in 0..2 { out(format!("ishift bool shl {x} {k}")); out(format!("ishift bool shr {x} {k}")); } }
+    if thorough {
+        // i8, u8: every value by every amount
+        for ty in ["i8", "u8"] { let (lo, hi) = int_range(ty); for x in lo..=hi { for k in (lo..=hi).filter(|k| k.abs() <= 10 || k % 16 == 0 || *k == lo || *k == hi) { out(format!("ishift {ty} shl {x} {k}")); out(format!("ishift {ty} shr {x} {k}")); } } }
+    }
+
+    // (I4) sizes: lib big_shapes and the not-a-multiple-of-8 counts; huge operands in the compact spelling
+    let mut big = big_shapes();
+    big.extend(vec![vec![31], vec![33], vec![257], vec![1025], vec![4097], vec![3, 5, 7, 79]]);
+    for (k, sh) in big.iter().enumerate() {
+        if prod(sh) <= 300 { ival_forms(&mut fx, sh, sh, &IARITH_TY, &[BIT_TY[k % 11], "bool"], out); }
+        else { ival_forms_l(&mut fx, sh, sh, &[IARITH_TY[k % 4]], &[BIT_TY[k % 11]], if thorough { None } else { Some(k) }, out); }
+    }
+    let mut hs: Vec<Vec<usize>> = vec![vec![8195], vec![65537], vec![2, 4099]];
+    if thorough { hs.extend(vec![vec![16385], vec![131073]]); hs.extend(huge_shapes()); }
+    for (k, sh) in hs.iter().enumerate() {
+        let ty = IARITH_TY[k % 4];
+        for (j, op) in ARITH_OP.iter().enumerate() {
+            // values 1..9: no overflow on any type (a value in both builds)
+            let (a, b) = (harr(sh, 1, 9, (k + j) as u64), harr(sh, 1, 9, (k + j + 1) as u64));
+            if j == k % 5 || thorough { out(format!("ival {} {ty} {op} {a} {b}", ["arr_arr", "assign_arr"][(k + j) % 2])); }
+            // the full range of i8 on both sides: wraps / panics
+            if j == (k + 1) % 5 { out(format!("ival arr_arr i8 {op} {} {}", harr(sh, -128, 256, k as u64), harr(sh, -128, 256, k as u64 + 1))); }
+            // one overflowing position at the very end of a huge non-overflowing operand
+            if j == (k + 2) % 5 && *op != "div" && *op != "rem" {
+                let n = prod(sh);
+                let (lo, hi) = int_range(ty);
+                let bad = if *op == "sub" { lo } else { hi };
+                out(format!("ival arr_arr {ty} {op} {} {b}", harr_ov(sh, 1, 9, (k + j) as u64, &[(n - 1, bad.to_string())])));
+                out(format!("ival assign_arr {ty} {op} {} {b}", harr_ov(sh, 1, 9, (k + j) as u64, &[(n - 1 - (n - 1) % 8, bad.to_string())])));
+            }
+            if j == (k + 3) % 5 && (*op == "div" || *op == "rem") {
+                let n = prod(sh);
+                out(format!("ival arr_arr {ty} {op} {a} {}", harr_ov(sh, 1, 9, (k + j + 1) as u64, &[(n - 1, "0".into())])));
+            }
+        }
+        let bt = BIT_TY[1 + k % 10];
+        let (lo, _) = int_range(bt);
+        let op = BIT_OP[k % 3];
+        let (blo, bm): (i64, u64) = match (bits_of(bt) == 8, lo < 0) { (true, true) => (-128, 256), (true, false) => (0, 256), (false, true) => (-30000, 60000), (false, false) => (0, 60000) };
+        out(format!("ival bit_arr {bt} {op} {} {}", harr(sh, blo, bm, k as u64), harr(sh, 0, 100, k as u64 + 1)));
+        out(format!("ival bit_assign_arr bool {op} {} {}", harr(sh, 0, 2, k as u64), harr(sh, 0, 2, k as u64 + 1)));
+    }
+    // (I5) the same operands through every integer type back to back on one thread
+    for (i, sh) in [vec![3], vec![2, 2], vec![17]].iter().enumerate() {
+        let (a, b) = (harr(sh, 100, 28, i as u64), harr(sh, 1, 9, i as u64 + 1));
+        for op in ARITH_OP {
+            out(format!("seq {}", IARITH_TY.iter().map(|ty| format!("ival arr_arr {ty} {op} {a} {b}")).collect::<Vec<_>>().join(" / ")));
+            out(format!("seq {}", IARITH_TY.iter().rev().map(|ty| format!("ival assign_scalar {ty} {op} {a} 2")).collect::<Vec<_>>().join(" / ")));
+        }
+        for op in BIT_OP { out(format!("seq {}", INT_TY.iter().map(|ty| format!("ival bit_arr {ty} {op} {a} {b}")).collect::<Vec<_>>().join(" / "))); }
+    }
+    out("ival_report".into());
+
+    // (I6) seeded: random shapes of rank <= 5, full-range values (overflow, zero divisors and MIN / -1 occur)
+    let mut rng = Rng::new(seed ^ 0x1A7_5EED);
+    let cap = if thorough { 600 } else { 300 };
+    for i in 0..(if thorough { 1200 } else { 160 }) {
+        let mut s = rng.shape(1, 5, 6);
+        while prod(&s) > cap { s = rng.shape(1, 5, 6); }
+        ival_forms(&mut rng, &s, &s, &[IARITH_TY[i % 4]], &[BIT_TY[i % 11]], out);
+        if i % 8 == 0 { let t = vec![prod(&s), 1]; ival_forms(&mut rng, &s, &t, &[IARITH_TY[(i / 8) % 4]], &[BIT_TY[(i / 8) % 11]], out); }
+        // random scalar shifts
+        let ty = INT_TY[i % 10]; let (lo, hi) = int_range(ty); let w = bits_of(ty);
+        let x = int_val(&mut rng, lo, hi);
+        let k = match rng.below(3) { 0 => rng.below(w as usize) as i128, 1 => int_val(&mut rng, lo, hi), _ => w - 2 + rng.below(5) as i128 }.clamp(lo, hi);
+        out(format!("ishift {ty} shl {x} {k}")); out(format!("ishift {ty} shr {x} {k}"));
+    }
+    out("ival_report final".into());
+}
+
 fn gen(tier: &str, seed: u64, out: &mut dyn FnMut(String)) {
     let thorough = tier == "thorough";
     // (i) corpus: the classic confusions — same element count, different shape
@@ -1039,6 +1512,7 @@ fn gen(tier: &str, seed: u64, out: &mut dyn FnMut(String)) {
 
     robustness(thorough, seed, out);
     robustness2(thorough, seed, out);
+    ival_stream(thorough, seed, out);
 
     // (iii) seeded random stream beyond the scope: rank <= 5, length <= 6, full-range values
     let mut rng = Rng::new(seed);
@@ -1062,11 +1536,11 @@ fn gen(tier: &str, seed: u64, out: &mut dyn FnMut(String)) {
 
 /// non-trivial: the receiver has at least two elements
 fn nontrivial(op: &str, args: &[&str]) -> bool {
-    if op == "state_report" { return false; }
+    if op == "state_report" || op == "ival_report" { return false; }
     args.iter().find(|a| a.contains(':') || a.starts_with('h')).map_or(false, |a| shape_count_of(a).map_or(false, |n| n >= 2))
 }
 
 fn main() {
     harness_main(Spec { prop: "C20", gen, exec, nontrivial, hang_secs: 20,
-        rule: "exhaustive: every shape of rank<=4 len<=3 (+ zero-length shapes; thorough adds len 4) x {a op b, a op= b, a op s, a op= s, plain-vs-compound} x {add,sub,mul,div,rem} x {i8,i16,i32,i64,f32,f64}, neg, {and,or,xor} x {bool + 10 integer types}, not(bool), {==,!=,<,<=,>,>=,partial_cmp} x 9 types (equal / one position changed / unrelated; all pairs over a 3-letter alphabet incl. NaN on arrays of <=3 elements); every ordered pair of different shapes (all forms when the element counts agree); + seeded random shapes rank<=5 len<=6 with full-range non-overflowing values and special floats. ROBUSTNESS STREAMS: every form on lib big_shapes() and on element counts 31..4103 around 32/256/1024/4096 that are not multiples of 8 (thorough ..16385): all types up to 300 elements (thorough 1100), above that two arithmetic types, bool + one integer type for the bit operators, f64 + one type for the comparisons, rotating; comparisons of long arrays that differ only at the first / middle / last / last-block position (value, NaN, -0.0); lib zero_shapes() in every form and every ordered pair of different zero shapes; ALIASING forms a op a.clone() and a op= a.clone() (arr_self, assign_self, bit_self, bit_assign_self); cmp_self = the SAME object on both sides for ==, !=, <, <=, >, >=, partial_cmp with NaN at the first/middle/last position, all NaN, -0.0, exhaustively over {0,-0.0,1,NaN} on <=3 elements (also every cmp case with textually equal operands is repeated on one object; identity must not change the answer); all pairs over {0,-0.0,1,NaN} on <=2 (thorough 3) elements and over {min,max,other} of i8,u8,i16,i32,i64,usize; the full 21x21 grid of special floats (+-0, +-NaN, +-inf, subnormal, min positive, max, 2^52+1, 2^53+1, 0.1, 3, 10) for all five operators in array, compound, scalar, compound-scalar and aliasing form on f32 and f64; negation of every special with the NaN sign bit compared; all in-range operand pairs over 19 values at the limits of i8,i16,i32,i64 for every operator in all forms; bit operators on the limits of ten integer types; seeded big shapes. Every call is evaluated twice. (The operators have no Result<Array<T>,ArrayError> receiver impls.) Every output position is compared with the native Rust operator bit-exactly. PART 2: element counts 8192..8200 (every residue mod 8), 8212, 12289, 16384..16391, 32773, 65536..65543, 70003, 131073, [3,5,7,79], [91,91], [2,4099] and lib huge_shapes (..140 000) in every array-by-array form (all operators in all forms up to 9000 elements, thorough 40 000; above that every operator in one rotating form, compound against plain, bool + one integer type, comparisons equal / last / last-block / NaN), operands in the compact spelling h<shape>~lo~m~o expanded by the same integer formula on both sides; every ordered pair of DIFFERENT shapes with equal element count and equal rank where an axis exceeds 65 535 ([1,131072] / [2,65536] / [65536,2] / [131072,1] ..., ranks 2..4, thorough 5) and every equal-count pair colliding under h*m+dim for m = 31, 33, 37, 131, 256, 257, 65536, 65599, for all five arithmetic operators plain and compound, &,|,^ plain and compound on bool and integers, ==, partial_cmp and one rotating ordering operator (must be refused); hidden state: `seq` lines (several calls on one thread, each judged like its own case) - lib collision_shape_pairs and the equal-count collisions as accepted / refused / accepted / refused reversed / accepted, the same arguments through every element type back to back, seeded interleavings - and an A-B-A re-run of the previous case after EVERY case shorter than 1500 bytes (STATE-DIVERGENCE). distinct = distinct case lines; non-trivial = receiver has >= 2 elements" });
+        rule: "exhaustive: every shape of rank<=4 len<=3 (+ zero-length shapes; thorough adds len 4) x {a op b, a op= b, a op s, a op= s, plain-vs-compound} x {add,sub,mul,div,rem} x {i8,i16,i32,i64,f32,f64}, neg, {and,or,xor} x {bool + 10 integer types}, not(bool), {==,!=,<,<=,>,>=,partial_cmp} x 9 types (equal / one position changed / unrelated; all pairs over a 3-letter alphabet incl. NaN on arrays of <=3 elements); every ordered pair of different shapes (all forms when the element counts agree); + seeded random shapes rank<=5 len<=6 with full-range non-overflowing values and special floats. ROBUSTNESS STREAMS: every form on lib big_shapes() and on element counts 31..4103 around 32/256/1024/4096 that are not multiples of 8 (thorough ..16385): all types up to 300 elements (thorough 1100), above that two arithmetic types, bool + one integer type for the bit operators, f64 + one type for the comparisons, rotating; comparisons of long arrays that differ only at the first / middle / last / last-block position (value, NaN, -0.0); lib zero_shapes() in every form and every ordered pair of different zero shapes; ALIASING forms a op a.clone() and a op= a.clone() (arr_self, assign_self, bit_self, bit_assign_self); cmp_self = the SAME object on both sides for ==, !=, <, <=, >, >=, partial_cmp with NaN at the first/middle/last position, all NaN, -0.0, exhaustively over {0,-0.0,1,NaN} on <=3 elements (also every cmp case with textually equal operands is repeated on one object; identity must not change the answer); all pairs over {0,-0.0,1,NaN} on <=2 (thorough 3) elements and over {min,max,other} of i8,u8,i16,i32,i64,usize; the full 21x21 grid of special floats (+-0, +-NaN, +-inf, subnormal, min positive, max, 2^52+1, 2^53+1, 0.1, 3, 10) for all five operators in array, compound, scalar, compound-scalar and aliasing form on f32 and f64; negation of every special with the NaN sign bit compared; all in-range operand pairs over 19 values at the limits of i8,i16,i32,i64 for every operator in all forms; bit operators on the limits of ten integer types; seeded big shapes. Every call is evaluated twice. (The operators have no Result<Array<T>,ArrayError> receiver impls.) Every output position is compared with the native Rust operator bit-exactly. PART 2: element counts 8192..8200 (every residue mod 8), 8212, 12289, 16384..16391, 32773, 65536..65543, 70003, 131073, [3,5,7,79], [91,91], [2,4099] and lib huge_shapes (..140 000) in every array-by-array form (all operators in all forms up to 9000 elements, thorough 40 000; above that every operator in one rotating form, compound against plain, bool + one integer type, comparisons equal / last / last-block / NaN), operands in the compact spelling h<shape>~lo~m~o expanded by the same integer formula on both sides; every ordered pair of DIFFERENT shapes with equal element count and equal rank where an axis exceeds 65 535 ([1,131072] / [2,65536] / [65536,2] / [131072,1] ..., ranks 2..4, thorough 5) and every equal-count pair colliding under h*m+dim for m = 31, 33, 37, 131, 256, 257, 65536, 65599, for all five arithmetic operators plain and compound, &,|,^ plain and compound on bool and integers, ==, partial_cmp and one rotating ordering operator (must be refused); hidden state: `seq` lines (several calls on one thread, each judged like its own case) - lib collision_shape_pairs and the equal-count collisions as accepted / refused / accepted / refused reversed / accepted, the same arguments through every element type back to back, seeded interleavings - and an A-B-A re-run of the previous case after EVERY case shorter than 1500 bytes (STATE-DIVERGENCE). INTEGER VALUES (`ival`, `ishift`): the Lean model contains the native fixed-width operators (ArrModel/C20Int.lean) and answers with values `<overflow-checks build> ;; <plain release build>`; the crate (built with overflow-checks = true) is compared with the first answer, native checked_* with the first and native wrapping_* with the second (`ival_report` counts; a model-vs-native disagreement fails the run): every shape of rank<=4 len<=3 + zero shapes x {a op b, a op= b, a op s, a op= s, a op a, -a} x {add,sub,mul,div,rem} x {i8,i16,i32,i64} and {and,or,xor} x six forms x {bool + 10 integer types}, not(bool), with one possibly overflowing / zero-divisor / MIN,-1 position in two lines of three; all pairs over 19 limit values of i8..i64 per operator, one pair per line and as one grid; i8 exhaustively (all 65 536 pairs of every arithmetic operator: full column, in-range part, first overflowing operand; thorough every right operand, quick a seeded quarter + limits), all 256 negations, all pairs of and/or/xor on i8 and u8; bit operators on the limits of ten types; big_shapes and counts 31..4097; huge operands with the offending element last / in the last block; differently shaped operands; the same operands through every integer type (seq); scalar shifts through Numeric::left_shift / right_shift for every amount -3..w+2 and the extremes on ten types and bool; seeded random shapes with full-range values. distinct = distinct case lines; non-trivial = receiver has >= 2 elements" });
 }
